@@ -267,11 +267,24 @@ def strategy(name):
             "UniformGen": sp.UniformGen, "RandomGen": sp.RandomGen, "SMGen": sp.SMGen, "IterateILPGen": sp.IterateILPGen}[name]
 
 
+def strategy_for(w, strat):
+    """The strategy argument as a user may pass it: the class, or - for RandomGen, which documents a constructor - one
+    generator OBJECT that is reused for every call in this world (in 40 % of the worlds, decided by the run's seed)."""
+    cls = strategy(strat)
+    if strat == "RandomGen" and hasattr(cls, "sample_object"):
+        if not hasattr(w, "_randomgen_obj"):
+            w._randomgen_obj = cls(0) if w.stream("strategy-object").random() < 0.4 else None
+        if w._randomgen_obj is not None:
+            w.count("strategy-object-call")
+            return w._randomgen_obj
+    return cls
+
+
 def synth(w, blk, strat, n):
     """synthesize_trials inside world w.  Returns (result, None) or (None, exception)."""
     import sweetpea as sp
     try:
-        res = sp.synthesize_trials(blk, n, strategy(strat))
+        res = sp.synthesize_trials(blk, n, strategy_for(w, strat))
     except W.HarnessCap:
         raise
     except BaseException as e:   # noqa
